@@ -100,7 +100,7 @@ claim("C12", "DESIGN.md 5/C12", "Lean 4 iff-characterisations of load and pre-pa
       "names a command of the selected libraries and is accepted by add_command on top of what the commands before it built), run_validates_first (run either returns the pre-pass error, or the recursive-model error, each with the state untouched, or evaluates the leaves). "
       "On the implementation: loads right after a malformed text, additions refused by add_command and then corrected, a file that vanished since an earlier model was validated. Cleaning itself is characterised in C20.", PB)
 claim("C13", "DESIGN.md 5/C13", "Lean 4 theorems on the error algebra of the model + boundary correspondence + exception-type oracle at from_source()/run() and CLI subprocess runs",
-      "Theorems in MPilot.C13: runCmd_not_raw (nothing but MPilotErrors leaves Command.run, whatever fails inside), fromNodes_not_raw, prepassCmd_not_raw (load and pre-pass raise "
+      "MPilot.C13 (Props/C13Run.lean): run_not_raw - whatever Program.run() ends with (a rejected argument, a circular model, a body or an input failing with any exception at all) the error that leaves run() is an MPilotError, inside the model's cleaning domain (prepass_not_raw, go_not_raw); run_rejection_declared - an error raised by the program layer itself (validation, cycle check) is an instance of a declared ProgramError class of the regenerated exception table. MPilot.C13E (Props/C13Err.lean), re-checked against Generated/ErrTable.lean (rewritten from the three exception modules each run): every_class_is_mpilot_error, program_errors_declared, eems_errors_declared, netcdf_errors_declared, load_errors_declared. Theorems in MPilot.C13: runCmd_not_raw (nothing but MPilotErrors leaves Command.run, whatever fails inside), fromNodes_not_raw, prepassCmd_not_raw (load and pre-pass raise "
       "MPilotErrors only, within the model's cleaning domain). A theorem ranges only over exception sources the model contains: new sources in the code are found by the correspondence "
       "(unpredicted outcome class = disagreement) and by the boundary oracle over the kind-confusion matrix, corrupted files, 300 CSV fault runs through the real bodies, and the CLI. "
       "The command-line tool itself is modelled (Model/Cli.lean: the lines it reads under universal newlines, the text it hands to the loader, standard error, exit status) - MPilot.C13Cli: mp_error_reported (an MPilot error gives exit status -1, "
